@@ -1,4 +1,5 @@
 pub mod diff;
 pub mod interp;
 pub mod member;
+pub mod targets;
 pub mod vpath;
